@@ -41,6 +41,9 @@ func Plaintext(s *simrt.Sim, maxSegs int) []byte {
 
 // Chunking configures a simulated reader for data of the given size.
 func Chunking(s *simrt.Sim, r *simio.Reader) {
+	// the reader is driven by a goroutine of the code under test: it gets a private decision
+	// stream (one tape entry) so that it never races the consumer for the tape
+	r.C = simio.NewSub(uint64(s.Choose(1<<30, "substream")))
 	size := len(r.Data)
 	switch s.Choose(5, "chunkstyle") {
 	case 0:
